@@ -15,7 +15,7 @@ def sched_tokens(draw, P):
 
 
 @st.composite
-def op_list(draw, maxlen=8, allow_other=False, allow_singular=False, pmax=4, need_refact=False, prec="d", sym_ok=False):
+def op_list(draw, maxlen=8, allow_other=False, allow_singular=False, pmax=4, need_refact=False, prec="d", sym_ok=False, allow_tune=False):
     ops = []; have = False
     L = draw(st.integers(2, maxlen))
     k = 0
@@ -26,6 +26,7 @@ def op_list(draw, maxlen=8, allow_other=False, allow_singular=False, pmax=4, nee
         else:
             choices = ["REFACT", "REFACT", "REFACT", "SOLVE", "SOLVE", "DESTROY", "GSSV"]
         if allow_other: choices.append("OTHER")
+        if allow_tune and not have: choices.append("TUNE")
         if allow_singular: choices.append("GSSVX")
         c = draw(st.sampled_from(choices))
         P = draw(st.sampled_from([p for p in (1, 1, 2, 2, 3, 4) if p <= pmax]))
@@ -47,6 +48,9 @@ def op_list(draw, maxlen=8, allow_other=False, allow_singular=False, pmax=4, nee
                 ops[-1] = ops[-1].replace("symm=0 u=1.0", "symm=1 u=0.0")
         elif c == "GSSV":
             ops.append("GSSV P=%d nrhs=%d%s" % (P, draw(st.sampled_from([1, 2])), draw(sched_tokens(P))))
+        elif c == "TUNE":
+            t = mx.fix_tunables(draw(mx.tunables))
+            ops.append("TUNE panel=%d relax=%d maxsuper=%d rowblk=%d colblk=%d" % (t["panel"], t["relax"], t["maxsuper"], t["rowblk"], t["colblk"]))
         elif c == "OTHER":
             # while factors of the history's own matrix are live, an interleaved system must be of another precision: a
             # refactorization takes its storage sizes from per-precision static state (outside C08's and C18's claims; see DESIGN)
@@ -62,7 +66,7 @@ def op_list(draw, maxlen=8, allow_other=False, allow_singular=False, pmax=4, nee
 
 
 @st.composite
-def hist_case(draw, nmax=30, maxlen=8, allow_other=False, allow_singular=False, precs=PRECS, pmax=4, user_ws=False):
+def hist_case(draw, nmax=30, maxlen=8, allow_other=False, allow_singular=False, precs=PRECS, pmax=4, user_ws=False, allow_tune=False):
     prec = draw(st.sampled_from(list(precs)))
     rec = draw(mx.recipe(2, nmax, None, ("dominant",), allow_zero_diag=True))
     entries = mx.entries_of(rec, prec)
@@ -74,8 +78,8 @@ def hist_case(draw, nmax=30, maxlen=8, allow_other=False, allow_singular=False, 
     s = {"prec": prec, "n": rec["n"], "m": rec["n"], "stype": "NC", "order": draw(st.sampled_from(["0", "1", "2", "3"]))}
     s.update(tun)
     sym_ok = (not rec.get("zero_diag")) and rec.get("permute") in (0, 1)
-    ops = draw(op_list(maxlen, allow_other, allow_singular, pmax, False, prec, sym_ok))
-    if user_ws and draw(st.integers(0, 2)) == 0:
+    ops = draw(op_list(maxlen, allow_other, allow_singular, pmax, False, prec, sym_ok, allow_tune))
+    if user_ws and not any(o.startswith("TUNE") for o in ops) and draw(st.integers(0, 2)) == 0:
         # the whole history runs in a caller-supplied workspace sized from the library's own query (for 4 threads)
         s["ws_factor"] = draw(st.sampled_from([1.5, 2.0, 4.0])); s["ws_P"] = 4
     return {"set": s, "entries": entries, "ops": ops, "family": rec["family"]}
@@ -93,5 +97,6 @@ def hist_classes(case, v):
     if f.get("singular_steps", 0): labs.append("singular_step")
     if any(" P=2" in o or " P=3" in o or " P=4" in o for o in ops): labs.append("has_parallel_step")
     if s.get("ws_factor"): labs.append("user_workspace x%s" % s["ws_factor"])
+    if "TUNE" in kinds and f.get("tunes", 0): labs.append("tunables_changed_between_factorizations")
     if v.get("v") == "fail": labs.append("sig=" + v.get("sig", ""))
     return labs
